@@ -99,13 +99,15 @@ class ThriftServer(PlannedServer):
         break
       payload = conn.rx[4:4 + n]
       conn.rx = conn.rx[4 + n:]
+      wseq, wtime = V.write_start(conn, conn.consumed)
+      conn.consumed += 4 + n
       try:
         name, mtype, seq, arg = decode_call(payload)
       except Exception as e:
         self.malformed.append((w.clock.now, conn.cid, repr(e)))
         continue
       rec = {'time': w.clock.now, 'conn': conn.cid, 'port': self.port, 'arg': arg, 'method': name, 'tseq': seq,
-             'seq': w.next_seq() if hasattr(w, 'next_seq') else None}
+             'seq': w.next_seq() if hasattr(w, 'next_seq') else None, 'wseq': wseq, 'wtime': wtime}
       self.requests.append(rec)
       act = self.action_for(arg, len(self.requests) - 1)
       self._do(conn, act, name, seq, arg)
@@ -181,6 +183,8 @@ class MuxServer(PlannedServer):
         break
       inner = conn.rx[4:4 + n]
       conn.rx = conn.rx[4 + n:]
+      wseq, wtime = V.write_start(conn, conn.consumed)
+      conn.consumed += 4 + n
       mtype, = unpack('!b', inner[:1])
       tag = int.from_bytes(inner[1:4], 'big')
       body = inner[4:]
@@ -203,7 +207,7 @@ class MuxServer(PlannedServer):
           self.malformed.append((w.clock.now, conn.cid, repr(e)))
           continue
         rec = {'time': w.clock.now, 'conn': conn.cid, 'port': self.port, 'arg': arg, 'method': name, 'tseq': seq,
-               'seq': w.next_seq() if hasattr(w, 'next_seq') else None, 'tag': tag, 'ctx': [(k.decode('utf-8', 'replace'), v.hex()) for k, v in ctx]}
+               'seq': w.next_seq() if hasattr(w, 'next_seq') else None, 'wseq': wseq, 'wtime': wtime, 'tag': tag, 'ctx': [(k.decode('utf-8', 'replace'), v.hex()) for k, v in ctx]}
         self.requests.append(rec)
         act = self.action_for(arg, len(self.requests) - 1)
         self._do(conn, act, name, seq, arg, tag)
